@@ -349,9 +349,9 @@ example : isModifierTok (b "zinter") = false ∧ isModifierTok (b "zunion") = fa
     isModifierTok (b "ZINTERSTORE") = false ∧ isModifierTok (b "zunionstore") = false := by decide
 
 /-- regression input: a destination spelled like the command word — the command word is kept, the command reads as
-    ZUNIONSTORE dest WEIGHTS (no source keys: class `zunionstore-without-source-keys-accepted`) and answers 0 -/
+    ZUNIONSTORE dest WEIGHTS: no source keys, refused by the key function (`zstore_without_sources_refused` below) -/
 example : ((handleZCombine false true c0 [b "zunionstore", b "zunionstore", b "weights"]).run c0 (st [])).2
-    = .done (.ok (intReply 0)) := by decide
+    = .done (.err wrongArgs) := by decide
 
 /-- non-vacuity and the regression inputs: the four commands with AGGREGATE (or WEIGHTS … AGGREGATE) as the last
     token answer the syntax error and leave the (empty) state alone -/
@@ -363,6 +363,395 @@ example : ((handleZCombine true true c0 [b "zinterstore", b "d", b "k3", b "k2",
     = .done (.err (b "aggregate must be SUM, MIN, or MAX")) := by decide
 example : ((handleZCombine false true c0 [b "zunionstore", b "k2", b "k1", b "AGGREGATE"]).run c0 (st [])).2
     = .done (.err (b "aggregate must be SUM, MIN, or MAX")) := by decide
+
+/-! ### repaired upstream (second batch): ZREMRANGEBYRANK reversed range, ZRANK WITHSCORE, ZCOUNT infinities, ZADD on a
+    numeric key, the key functions of the STORE forms, ZADD conflicting flags -/
+
+/-- a rank argument counted from the tail when negative (commands.go: `start = start + set.Cardinality()`) -/
+def normIdx (card i : Int) : Int := if i < 0 then i + card else i
+
+/-- **ZREMRANGEBYRANK with the start rank after the stop rank removes nothing**: for every sorted set, every pair of
+    index tokens that read as ranks inside the set (negative ones counted from the tail) with start > stop, the reply
+    is 0 and the state is untouched — whatever the iteration order, whatever the size of the set. (The handler used to
+    swap the two and remove the ranks stop..start. Ranks *outside* the set are still refused: the module tests pin
+    "indices out of bounds", class `zremrangebyrank-rejects-out-of-range-indices`.) -/
+theorem zremrangebyrank_reversed_removes_nothing (c : Ctx) (s : State) (name k a z : Bytes) (o : Nat) (ms : KMap Flt)
+    (ex : Option Int) (st en : Int) (h : Holds c s k ⟨.zset o ms, ex⟩)
+    (ha : atoiErr a = .ok st) (hz : atoiErr z = .ok en)
+    (h0 : 0 ≤ normIdx ms.length en) (hrev : normIdx ms.length en < normIdx ms.length st)
+    (h1 : normIdx ms.length st ≤ (ms.length : Int) - 1) :
+    (handleZRemRangeByRank c [name, k, a, z]).run c s = (s, .done (.ok (intReply 0))) := by
+  obtain ⟨hl, he⟩ := h
+  unfold normIdx at h0 hrev h1
+  simp [handleZRemRangeByRank, withZSet, keysExist_single, hl, getValues_live _ _ _ _ hl he, asZSet?, ha, hz, twoOf]
+  rw [if_neg (by omega), if_pos (by omega)]
+  rfl
+
+/-- non-vacuity and the regression input: ZREMRANGEBYRANK k 2 0 and k -1 -3 on three members -/
+example : (handleZRemRangeByRank c0 [b "zremrangebyrank", b "k", b "2", b "0"]).run c0
+      (st [(b "k", ⟨.zset 0 [(b "a", q 1), (b "b", q 2), (b "c", q 3)], none⟩)])
+    = (st [(b "k", ⟨.zset 0 [(b "a", q 1), (b "b", q 2), (b "c", q 3)], none⟩)], .done (.ok (intReply 0))) := by decide
+example : ((handleZRemRangeByRank c0 [b "zremrangebyrank", b "k", b "-1", b "-3"]).run c0
+      (st [(b "k", ⟨.zset 0 [(b "a", q 1), (b "b", q 2), (b "c", q 3)], none⟩)])).2 = .done (.ok (intReply 0)) := by decide
+/-- … and a range in order still removes its members: ranks 1..2 of a b c leave a -/
+example : ((handleZRemRangeByRank c0 [b "zremrangebyrank", b "k", b "1", b "-1"]).run c0
+      (st [(b "k", ⟨.zset 0 [(b "a", q 1), (b "b", q 2), (b "c", q 3)], none⟩)])).1.lookup 0 (b "k")
+    = some ⟨.zset 0 [(b "a", q 1)], none⟩ := by decide
+
+/-- **ZRANK / ZREVRANK read WITHSCORE like WITHSCORES**: for every state, key, member and spelling of the documented
+    option word, the command behaves exactly as with WITHSCORES (`name` is the command word: both commands). -/
+theorem zrank_withscore_same_as_withscores (c : Ctx) (s : State) (name k m opt : Bytes)
+    (ha : isAscii opt = true) (ho : eqFold opt (b "withscore") = true) :
+    (handleZRank c [name, k, m, opt]).run c s = (handleZRank c [name, k, m, b "withscores"]).run c s := by
+  have a1 : isAscii (b "withscores") = true := by decide
+  have a2 : eqFold (b "withscores") (b "withscores") = true := by decide
+  simp [handleZRank, withZSet, ha, ho, a1, a2]
+
+/-- **WITHSCORE adds the member's score to the reply**: for every sorted set (inside the modelled sort domain) and every
+    member of it, whenever a rank `i` is reported the reply is the pair `[i, score]`, the score being the one stored.
+    Holds for both spellings of the option and both commands. -/
+theorem zrank_withscore_reports_score (c : Ctx) (s : State) (name k m opt : Bytes) (o : Nat) (ms : KMap Flt)
+    (ex : Option Int) (sc : Flt) (i : Nat) (h : Holds c s k ⟨.zset o ms, ex⟩)
+    (ha : isAscii opt = true) (ho : eqFold opt (b "withscore") = true ∨ eqFold opt (b "withscores") = true)
+    (hm : ms.get m = some sc) (hl : ms.length ≤ 12)
+    (hg : (zGuess c (eqFold name (b "zrevrank")) (.rank m) ms).2 ≤ zAltCap)
+    (hi : (insertionSort (scoreLt (eqFold name (b "zrevrank"))) (zGuess c (eqFold name (b "zrevrank")) (.rank m) ms).1).findIdx?
+            (fun z => z.1 == m) = some i) :
+    (handleZRank c [name, k, m, opt]).run c s = (s, .done (.ok (arrHdr 2 ++ intReply i ++ bulkStr sc.fmtF))) := by
+  obtain ⟨h1, h2⟩ := h
+  have hl' : ¬ (12 < ms.length) := by omega
+  have hg' : ¬ (zAltCap < (zGuess c (eqFold name (b "zrevrank")) (.rank m) ms).2) := by omega
+  rcases ho with ho | ho <;>
+    simp [handleZRank, withZSet, keysExist_single, h1, getValues_live _ _ _ _ h1 h2, asZSet?, ha, ho, hm, hl', hg', hi]
+
+/-- non-vacuity and the regression inputs: ZRANK k m WITHSCORE and ZREVRANK k a withscore -/
+example : ((handleZRank c0 [b "zrank", b "k", b "m", b "WITHSCORE"]).run c0 (st [(b "k", ⟨.zset 0 [(b "m", q 1)], none⟩)])).2
+    = .done (.ok (b "*2\r\n:0\r\n$1\r\n1\r\n")) := by decide
+example : ((handleZRank c0 [b "zrevrank", b "k", b "a", b "withscore"]).run c0
+      (st [(b "k", ⟨.zset 0 [(b "a", q 1), (b "b", q 2)], none⟩)])).2 = .done (.ok (b "*2\r\n:1\r\n$1\r\n1\r\n")) := by decide
+
+/-- **A ZCOUNT bound is read the same way on both ends**: a token AdaptType reads as a number is that number; a word is
+    accepted exactly when strconv.ParseFloat reads it as an infinity, and then stands for that infinity — there is no
+    "+inf for min only, -inf for max only" any more (`zcountBound` has no such parameter). -/
+theorem zcountBound_infinity (t s msg : Bytes) (f : Flt) (ht : adaptType t = .str s)
+    (hp : parseFloat64 s = some (some f)) (hi : f.isInf = true) : zcountBound t msg = .ok f := by
+  simp [zcountBound, ht, hp, hi]
+
+theorem zcountBound_number (t msg : Bytes) (f : Flt) (ht : adaptType t = .flt f) : zcountBound t msg = .ok f := by
+  simp [zcountBound, ht]
+
+/-- the spellings the generator and the regression script use, on either end (−INF used to be refused as min, +INF as
+    max, INF / Infinity on both) -/
+example : ([b "-INF", b "+INF", b "INF", b "-Infinity", b "+infinity", b "-iNf", b "inf", b "-inf", b "max", b "nan", b "2.5"].map
+      fun t => match zcountBound t (b "m") with
+        | .ok f => some f
+        | _ => none)
+    = [some .ninf, some .pinf, some .pinf, some .ninf, some .pinf, some .ninf, some .pinf, some .ninf, none, none, some (.fin ⟨25, -1⟩)] := by
+  decide
+
+/-- **ZCOUNT counts the members between its bounds**, infinities included: for every sorted set and every pair of
+    tokens that read as bounds, the reply is the number of members with `lo ≤ score ≤ hi`; nothing changes. -/
+theorem zcount_counts_between (c : Ctx) (s : State) (name k lo hi : Bytes) (o : Nat) (ms : KMap Flt) (ex : Option Int)
+    (l u : Flt) (h : Holds c s k ⟨.zset o ms, ex⟩)
+    (hlo : zcountBound lo (b "min constraint must be a double") = .ok l)
+    (hhi : zcountBound hi (b "max constraint must be a double") = .ok u) :
+    (handleZCount c [name, k, lo, hi]).run c s =
+      (s, .done (.ok (intReply (ms.filter fun z => l.le z.2 && z.2.le u).length))) := by
+  obtain ⟨h1, h2⟩ := h
+  simp [handleZCount, withZSet, keysExist_single, h1, getValues_live _ _ _ _ h1 h2, asZSet?, hlo, hhi]
+
+/-- regression input: ZCOUNT k -INF +INF counts every member, ZCOUNT k +INF -INF none -/
+example : ((handleZCount c0 [b "zcount", b "k", b "-INF", b "+INF"]).run c0
+      (st [(b "k", ⟨.zset 0 [(b "a", q 1), (b "lo", .ninf), (b "hi", .pinf)], none⟩)])).2 = .done (.ok (intReply 3)) := by decide
+example : ((handleZCount c0 [b "zcount", b "k", b "+INF", b "-INF"]).run c0
+      (st [(b "k", ⟨.zset 0 [(b "a", q 1), (b "lo", .ninf), (b "hi", .pinf)], none⟩)])).2 = .done (.ok (intReply 0)) := by decide
+
+/-- **Any byte string is a ZADD key**: on an absent key — whatever its name, a number included — `ZADD key score member`
+    creates the sorted set holding that member with that score and answers 1 (no memory limit configured). The scan for
+    the first score starts after the key. -/
+theorem zadd_new_key_any_name (c : Ctx) (s : State) (name key tok m : Bytes) (f : Flt)
+    (hmem : c.cfg.maxMemory = 0) (h : s.lookup c.db key = none) (ht : adaptType tok = .flt f) :
+    ((handleZAdd c [name, key, tok, m]).run c s).2 = .done (.ok (intReply 1)) ∧
+    ((handleZAdd c [name, key, tok, m]).run c s).1.lookup c.db key = some ⟨.zset 0 [(m, f)], none⟩ := by
+  have hs := setValues_single c s key (.zset 0 [(m, f)]) hmem
+  simp [handleZAdd, keysExist_single, h, zaddStart, zaddIsScore, zaddMembers, ht, zaddOptions, zaddApply,
+    setOrErr, newSortedSet, KMap.put, hs.1, hs.2.1]
+
+/-- regression inputs: ZADD 1 2 m, ZADD -inf nx 1 m (keys that read as scores) -/
+example : ((handleZAdd c0 [b "zadd", b "1", b "2", b "m"]).run c0 (st [])).1.lookup 0 (b "1") = some ⟨.zset 0 [(b "m", q 2)], none⟩ := by decide
+example : ((handleZAdd c0 [b "zadd", b "-inf", b "nx", b "1", b "m"]).run c0 (st [])).2 = .done (.ok (intReply 1)) := by decide
+/-- … and a command without any score is still refused -/
+example : ((handleZAdd c0 [b "zadd", b "1", b "nx", b "a", b "b"]).run c0 (st [])).2
+    = .done (.err (b "score/member pairs must be float/string")) := by decide
+
+/-- **ZINTERSTORE / ZUNIONSTORE without a source key are refused**: when the token after the destination is an option
+    word, the command fails with the arity error and nothing changes — every state, every suffix (`inter` selects the
+    command). ZUNIONSTORE used to store the union of no operands. -/
+theorem zstore_without_sources_refused (inter : Bool) (c : Ctx) (s : State) (name dest opt : Bytes) (rest : List Bytes)
+    (ha : (name :: dest :: opt :: rest).all isAscii = true) (ho : isModifierTok opt = true) :
+    (handleZCombine inter true c (name :: dest :: opt :: rest)).run c s = (s, .done (.err wrongArgs)) := by
+  have hk : zstoreKeyFuncErr (name :: dest :: opt :: rest) = true := by
+    by_cases hd : isModifierTok dest = true
+    · simp [zstoreKeyFuncErr, List.findIdx?_cons, hd]
+    · simp [zstoreKeyFuncErr, List.findIdx?_cons, hd, ho]
+  have hlen : ¬ ((name :: dest :: opt :: rest).length < 3) := by simp
+  unfold handleZCombine
+  simp only [Bool.true_and, hlen, decide_false, Bool.false_or, Bool.not_true, Bool.false_and, Bool.or_self,
+    Bool.false_eq_true, if_false, ha, if_true, hk, Prog.run]
+
+/-- **One source key is enough for the STORE forms, whatever options follow**: the key function accepts
+    `dest key <anything>` as soon as neither of the two is an option word. ZINTERSTORE used to want two keys. -/
+theorem zstore_one_source_key_accepted (name dest key : Bytes) (rest : List Bytes)
+    (hd : isModifierTok dest = false) (hk : isModifierTok key = false) :
+    zstoreKeyFuncErr (name :: dest :: key :: rest) = false := by
+  unfold zstoreKeyFuncErr
+  simp only [List.drop_succ_cons, List.drop_zero, List.findIdx?_cons, hd, hk]
+  cases hr : List.findIdx? isModifierTok rest <;> simp [hr]
+
+/-- regression inputs: ZINTERSTORE d k WEIGHTS 2 stores the scaled operand; … WITHSCORES the operand itself;
+    ZUNIONSTORE d WEIGHTS is refused and keeps d -/
+example : ((handleZCombine true true c0 [b "zinterstore", b "d", b "k", b "weights", b "2"]).run c0
+      (st [(b "k", ⟨.zset 0 [(b "a", q 1), (b "b", q 2)], none⟩)])).1.lookup 0 (b "d")
+    = some ⟨.zset 0 [(b "a", q 2), (b "b", q 4)], none⟩ := by decide
+example : ((handleZCombine true true c0 [b "zinterstore", b "d", b "k", b "withscores"]).run c0
+      (st [(b "k", ⟨.zset 0 [(b "a", q 1)], none⟩)])).2 = .done (.ok (intReply 1)) := by decide
+example : (handleZCombine false true c0 [b "zunionstore", b "d", b "WEIGHTS"]).run c0 (st [(b "d", ⟨.zset 0 [(b "old", q 9)], none⟩)])
+    = (st [(b "d", ⟨.zset 0 [(b "old", q 9)], none⟩)], .done (.err wrongArgs)) := by decide
+
+/-- is the token the word `w` in some case -/
+def isWord (t w : Bytes) : Prop := toLower t = w
+
+/-- once an NX / XX word `p` has been read, any later NX / XX word of the other kind stops the option parser:
+    it never answers a set of options -/
+theorem zaddOptions_policy_conflict (n : Nat) : ∀ (opts : List Bytes) (o : ZAddOpts) (p : Bytes),
+    o.policy = some p → (∃ t ∈ opts, (isWord t (b "nx") ∨ isWord t (b "xx")) ∧ toLower t ≠ toLower p) →
+    ∀ r, zaddOptions n opts o ≠ .ok r := by
+  intro opts
+  induction opts with
+  | nil => intro o p _ ⟨t, ht, _⟩; cases ht
+  | cons t' rest ih =>
+    intro o p hp ⟨t, ht, hw, hne⟩ r
+    unfold zaddOptions
+    split
+    · intro hh; cases hh
+    · split
+      · -- t' is an NX / XX word
+        split
+        · intro hh; cases hh
+        · rename_i hcond
+          have heq : toLower p = toLower t' := by
+            simp only [hp, Option.isSome_some, Option.getD_some, Bool.true_and, Bool.not_eq_true', eqFold,
+              Bool.not_eq_false, beq_iff_eq] at hcond
+            exact hcond
+          split
+          · intro hh; cases hh
+          · refine ih _ t' rfl ⟨t, ?_, hw, by rw [← heq]; exact hne⟩ r
+            rcases List.mem_cons.mp ht with rfl | hm
+            · exact absurd heq.symm hne
+            · exact hm
+      · rename_i hnot
+        have hmem : t ∈ rest := by
+          rcases List.mem_cons.mp ht with rfl | hm
+          · exfalso
+            apply hnot
+            unfold isWord at hw
+            rcases hw with hw | hw <;> simp [hw]
+          · exact hm
+        have hex : ∃ t ∈ rest, (isWord t (b "nx") ∨ isWord t (b "xx")) ∧ toLower t ≠ toLower p := ⟨t, hmem, hw, hne⟩
+        repeat' split
+        all_goals first
+          | (intro hh; cases hh; done)
+          | exact ih _ p (by exact hp) hex r
+
+/-- **ZADD refuses NX together with XX**: an option list naming both (in any order, any case, anything between them)
+    never parses — the command fails before anything is read or written. -/
+theorem zadd_nx_xx_refused (n : Nat) : ∀ (opts : List Bytes) (o : ZAddOpts), o.policy = none →
+    (∃ t ∈ opts, isWord t (b "nx")) → (∃ t ∈ opts, isWord t (b "xx")) → ∀ r, zaddOptions n opts o ≠ .ok r := by
+  intro opts
+  induction opts with
+  | nil => intro o _ ⟨t, ht, _⟩; cases ht
+  | cons t' rest ih =>
+    intro o hp ⟨a, ha, hna⟩ ⟨x, hx, hxx⟩ r
+    have hdiff : (b "nx" : Bytes) ≠ b "xx" := by decide
+    unfold zaddOptions
+    split
+    · intro hh; cases hh
+    · split
+      · rename_i hword
+        split
+        · intro hh; cases hh
+        · split
+          · intro hh; cases hh
+          · -- the policy is now t'; the word of the other kind is further right
+            simp only [Bool.or_eq_true, beq_iff_eq] at hword
+            refine zaddOptions_policy_conflict n rest _ t' rfl ?_ r
+            rcases hword with hword | hword
+            · -- t' is XX: the NX word is in the rest
+              refine ⟨a, ?_, Or.inl hna, by unfold isWord at hna; rw [hna, hword]; exact hdiff⟩
+              rcases List.mem_cons.mp ha with rfl | hm
+              · unfold isWord at hna; rw [hna] at hword; exact absurd hword hdiff
+              · exact hm
+            · refine ⟨x, ?_, Or.inr hxx, by unfold isWord at hxx; rw [hxx, hword]; exact hdiff.symm⟩
+              rcases List.mem_cons.mp hx with rfl | hm
+              · unfold isWord at hxx; rw [hxx] at hword; exact absurd hword hdiff.symm
+              · exact hm
+      · rename_i hnot
+        have ha' : a ∈ rest := by
+          rcases List.mem_cons.mp ha with rfl | hm
+          · exfalso; apply hnot; unfold isWord at hna; simp [hna]
+          · exact hm
+        have hx' : x ∈ rest := by
+          rcases List.mem_cons.mp hx with rfl | hm
+          · exfalso; apply hnot; unfold isWord at hxx; simp [hxx]
+          · exact hm
+        repeat' split
+        all_goals first
+          | (intro hh; cases hh; done)
+          | exact ih _ (by exact hp) ⟨a, ha', hna⟩ ⟨x, hx', hxx⟩ r
+
+/-- the same for GT / LT: once one of them has been read, a later word of the other kind stops the parser -/
+theorem zaddOptions_comp_conflict (n : Nat) : ∀ (opts : List Bytes) (o : ZAddOpts) (p : Bytes),
+    o.comp = some p → (∃ t ∈ opts, (isWord t (b "gt") ∨ isWord t (b "lt")) ∧ toLower t ≠ toLower p) →
+    ∀ r, zaddOptions n opts o ≠ .ok r := by
+  intro opts
+  induction opts with
+  | nil => intro o p _ ⟨t, ht, _⟩; cases ht
+  | cons t' rest ih =>
+    intro o p hp ⟨t, ht, hw, hne⟩ r
+    have d1 : (b "gt" : Bytes) ≠ b "xx" := by decide
+    have d2 : (b "gt" : Bytes) ≠ b "nx" := by decide
+    have d3 : (b "lt" : Bytes) ≠ b "xx" := by decide
+    have d4 : (b "lt" : Bytes) ≠ b "nx" := by decide
+    unfold zaddOptions
+    split
+    · intro hh; cases hh
+    · split
+      · -- t' is an NX / XX word: not the witness
+        rename_i hword
+        simp only [Bool.or_eq_true, beq_iff_eq] at hword
+        have hmem : t ∈ rest := by
+          rcases List.mem_cons.mp ht with rfl | hm
+          · exfalso
+            unfold isWord at hw
+            rcases hw with hw | hw <;> rcases hword with hword | hword <;> rw [hw] at hword
+            · exact d1 hword
+            · exact d2 hword
+            · exact d3 hword
+            · exact d4 hword
+          · exact hm
+        have hex : ∃ t ∈ rest, (isWord t (b "gt") ∨ isWord t (b "lt")) ∧ toLower t ≠ toLower p := ⟨t, hmem, hw, hne⟩
+        repeat' split
+        all_goals first
+          | (intro hh; cases hh; done)
+          | exact ih _ p (by exact hp) hex r
+      · split
+        · -- t' is a GT / LT word
+          split
+          · intro hh; cases hh
+          · rename_i hcond
+            have heq : toLower p = toLower t' := by
+              simp only [hp, Option.isSome_some, Option.getD_some, Bool.true_and, Bool.not_eq_true', eqFold,
+                Bool.not_eq_false, beq_iff_eq] at hcond
+              exact hcond
+            split
+            · intro hh; cases hh
+            · refine ih _ t' rfl ⟨t, ?_, hw, by rw [← heq]; exact hne⟩ r
+              rcases List.mem_cons.mp ht with rfl | hm
+              · exact absurd heq.symm hne
+              · exact hm
+        · rename_i hnot
+          have hmem : t ∈ rest := by
+            rcases List.mem_cons.mp ht with rfl | hm
+            · exfalso
+              apply hnot
+              unfold isWord at hw
+              rcases hw with hw | hw <;> simp [hw]
+            · exact hm
+          have hex : ∃ t ∈ rest, (isWord t (b "gt") ∨ isWord t (b "lt")) ∧ toLower t ≠ toLower p := ⟨t, hmem, hw, hne⟩
+          repeat' split
+          all_goals first
+            | (intro hh; cases hh; done)
+            | exact ih _ p (by exact hp) hex r
+
+/-- **ZADD refuses GT together with LT**: an option list naming both (any order, any case, anything between them)
+    never parses. -/
+theorem zadd_gt_lt_refused (n : Nat) : ∀ (opts : List Bytes) (o : ZAddOpts), o.comp = none →
+    (∃ t ∈ opts, isWord t (b "gt")) → (∃ t ∈ opts, isWord t (b "lt")) → ∀ r, zaddOptions n opts o ≠ .ok r := by
+  intro opts
+  induction opts with
+  | nil => intro o _ ⟨t, ht, _⟩; cases ht
+  | cons t' rest ih =>
+    intro o hp ⟨a, ha, hna⟩ ⟨x, hx, hxx⟩ r
+    have hdiff : (b "gt" : Bytes) ≠ b "lt" := by decide
+    have d1 : (b "gt" : Bytes) ≠ b "xx" := by decide
+    have d2 : (b "gt" : Bytes) ≠ b "nx" := by decide
+    have d3 : (b "lt" : Bytes) ≠ b "xx" := by decide
+    have d4 : (b "lt" : Bytes) ≠ b "nx" := by decide
+    unfold zaddOptions
+    split
+    · intro hh; cases hh
+    · split
+      · rename_i hword
+        simp only [Bool.or_eq_true, beq_iff_eq] at hword
+        have ha' : a ∈ rest := by
+          rcases List.mem_cons.mp ha with rfl | hm
+          · exfalso; unfold isWord at hna; rcases hword with hword | hword <;> rw [hna] at hword
+            · exact d1 hword
+            · exact d2 hword
+          · exact hm
+        have hx' : x ∈ rest := by
+          rcases List.mem_cons.mp hx with rfl | hm
+          · exfalso; unfold isWord at hxx; rcases hword with hword | hword <;> rw [hxx] at hword
+            · exact d3 hword
+            · exact d4 hword
+          · exact hm
+        repeat' split
+        all_goals first
+          | (intro hh; cases hh; done)
+          | exact ih _ (by exact hp) ⟨a, ha', hna⟩ ⟨x, hx', hxx⟩ r
+      · split
+        · rename_i hword
+          split
+          · intro hh; cases hh
+          · split
+            · intro hh; cases hh
+            · simp only [Bool.or_eq_true, beq_iff_eq] at hword
+              refine zaddOptions_comp_conflict n rest _ t' rfl ?_ r
+              rcases hword with hword | hword
+              · -- t' is GT: the LT word is in the rest
+                refine ⟨x, ?_, Or.inr hxx, by unfold isWord at hxx; rw [hxx, hword]; exact hdiff.symm⟩
+                rcases List.mem_cons.mp hx with rfl | hm
+                · unfold isWord at hxx; rw [hxx] at hword; exact absurd hword hdiff.symm
+                · exact hm
+              · refine ⟨a, ?_, Or.inl hna, by unfold isWord at hna; rw [hna, hword]; exact hdiff⟩
+                rcases List.mem_cons.mp ha with rfl | hm
+                · unfold isWord at hna; rw [hna] at hword; exact absurd hword hdiff
+                · exact hm
+        · rename_i hnot
+          have ha' : a ∈ rest := by
+            rcases List.mem_cons.mp ha with rfl | hm
+            · exfalso; apply hnot; unfold isWord at hna; simp [hna]
+            · exact hm
+          have hx' : x ∈ rest := by
+            rcases List.mem_cons.mp hx with rfl | hm
+            · exfalso; apply hnot; unfold isWord at hxx; simp [hxx]
+            · exact hm
+          repeat' split
+          all_goals first
+            | (intro hh; cases hh; done)
+            | exact ih _ (by exact hp) ⟨a, ha', hna⟩ ⟨x, hx', hxx⟩ r
+
+/-- the hypotheses are satisfiable, and the handler turns the refusal into an error that leaves the state alone:
+    the regression inputs ZADD k NX XX 5 a, ZADD k LT CH GT 0 a (existing member), and the flags NX with GT -/
+example : (handleZAdd c0 [b "zadd", b "k", b "nx", b "xx", b "5", b "a"]).run c0 (st [(b "k", ⟨.zset 0 [(b "a", q 1)], none⟩)])
+    = (st [(b "k", ⟨.zset 0 [(b "a", q 1)], none⟩)], .done (.err (b "XX and NX flags cannot be provided together"))) := by decide
+example : (handleZAdd c0 [b "zadd", b "k", b "LT", b "ch", b "GT", b "0", b "a"]).run c0 (st [(b "k", ⟨.zset 0 [(b "a", q 1)], none⟩)])
+    = (st [(b "k", ⟨.zset 0 [(b "a", q 1)], none⟩)], .done (.err (b "GT and LT flags cannot be provided together"))) := by decide
+example : ((handleZAdd c0 [b "zadd", b "k", b "xx", b "nx", b "5", b "a"]).run c0 (st [])).2
+    = .done (.err (b "XX and NX flags cannot be provided together")) := by decide
+/-- a repeated flag is not a conflict: ZADD k NX nx 7 m adds m -/
+example : ((handleZAdd c0 [b "zadd", b "k", b "NX", b "nx", b "7", b "m"]).run c0 (st [(b "k", ⟨.zset 0 [(b "a", q 1)], none⟩)])).1.lookup 0 (b "k")
+    = some ⟨.zset 0 [(b "a", q 1), (b "m", q 7)], none⟩ := by decide
 
 /-! ### where the full statement fails (model witnesses; each is a class of Known.lean) -/
 
@@ -414,5 +803,19 @@ theorem classes_named :
     Known.classifyZSet c0 (st []) [b "zadd", b "k", b "xx", b "1", b "n"] = some "zadd-flags-ignored-on-new-key" ∧
     Known.classifyZSet c0 (st [(b "k", ⟨.zset 0 [(b "a", q 1)], none⟩)]) [b "zunionstore", b "k", b "k"]
       = some "zstore-destination-dropped-from-operands" := by decide
+
+/-- the repaired inputs are no longer named by their former classes, and no longer hide the classes that share their
+    shape: ZADD on a numeric key, ZRANK … WITHSCORE, ZINTERSTORE with one source key (here with an absent operand, which is
+    the class `zstore-absent-operand-keeps-destination`) -/
+theorem repaired_classes_not_named :
+    Known.classifyZSet c0 (st []) [b "zadd", b "1", b "2", b "2"] = none ∧
+    Known.classifyZSet c0 (st [(b "1", ⟨.zset 0 [(b "a", q 1)], none⟩)]) [b "zadd", b "1", b "2", b "a"]
+      = some "zadd-counts-updates-without-ch" ∧
+    Known.classifyZSet c0 (st [(b "k", ⟨.zset 0 [(b "m", q 1)], none⟩)]) [b "zrank", b "k", b "m", b "withscore"] = none ∧
+    Known.classifyZSet c0 (st [(b "k", ⟨.zset 0 [(b "m", q 1), (b "n", q 1)], none⟩)]) [b "zrank", b "k", b "m", b "withscore"]
+      = some "zset-ties-ordered-by-map-iteration" ∧
+    Known.classifyZSet c0 (st [(b "k1", ⟨.zset 0 [(b "m", q 1)], none⟩)]) [b "zinterstore", b "k3", b "k1", b "withscores"] = none ∧
+    Known.classifyZSet c0 (st [(b "d", ⟨.zset 0 [(b "m", q 1)], none⟩)]) [b "zinterstore", b "d", b "k9", b "withscores"]
+      = some "zstore-absent-operand-keeps-destination" := by decide
 
 end Sugar.Props.C17
